@@ -215,3 +215,13 @@ Require Copia.Proofs.TiePlan.
 Theorem C04_model_is_translation_of_source : TiePlan.plan_model_is_translation.
 Proof. exact TiePlan.plan_model_is_translation_holds. Qed.
 Print Assumptions C04_model_is_translation_of_source.
+
+(** The step sequence of one delivery in the crash model (open the staging file, one write per chunk, rename, set the
+    mtime: the program-counter transitions of OneWaySteps.step) is the list of file-system calls of incremental.rs
+    deliver_local / deliver_pull as the source has them now: the data goes into the destination's staging name, the
+    rename publishes that very file onto the destination, the mtime is set on the destination afterwards
+    (Gen/OneWaySysGen.v, Proofs/TieOneWaySys.v). *)
+Require Copia.Proofs.TieOneWaySys.
+Theorem C04_delivery_steps_are_translation_of_source : TieOneWaySys.oneway_delivery_is_translation.
+Proof. exact TieOneWaySys.oneway_delivery_is_translation_holds. Qed.
+Print Assumptions C04_delivery_steps_are_translation_of_source.
